@@ -88,9 +88,9 @@ JudgePlan(cfg, st, e) ==
 \* ===========================================================================
 JudgeRm(cfg, st, e) ==
   CASE e.op = "delay" ->
-         LET m     == {CondMult(e.cond)}
-             ideal == e.res.kind = "Ok" /\ IF e.a = 0 THEN e.res.ms = 0 ELSE DelayOK(cfg, e.a, m, e.res.ms, 1)
-             dF    == ~ideal /\ Dev("FX02f") /\ e.res.kind = "Ok" /\ e.a >= 1 /\ DelayOverCap(cfg, e.a, m, e.res.ms, 1)
+         LET fr    == CondRange(e.cond)
+             ideal == e.res.kind = "Ok" /\ IF e.a = 0 THEN e.res.ms = 0 ELSE DelayOK(cfg, e.a, fr, e.res.ms, 1)
+             dF    == ~ideal /\ Dev("FX02f") /\ e.res.kind = "Ok" /\ e.a >= 1 /\ DelayOverCap(cfg, e.a, fr, e.res.ms, 1)
              dG    == ~ideal /\ Dev("FX02g") /\ e.res.kind = "panic" /\ PowOverflow(e.a)
          IN Verdict(ideal \/ dF \/ dG, IF dF THEN "FX02f" ELSE IF dG THEN "FX02g" ELSE "", st)
     [] e.op = "retryable" -> Verdict(e.res.kind = "Ok" /\ e.res.b = Retryable(cfg, e.err), "", st)
@@ -167,7 +167,9 @@ PoolNext(s, cfg, e) ==
                       !.reg[e.h] = IF trip THEN "O" ELSE @,
                       !.open[e.h] = IF trip THEN <<0, BreakerWindow>> ELSE @,
                       !.m = <<@[1] + (IF e.ok THEN 1 ELSE 0), @[2] + (IF e.ok THEN 0 ELSE 1), @[3] + (IF trip THEN 1 ELSE 0), @[4], @[5]>>]
-    [] e.op = "remove" -> [s EXCEPT !.reg[e.h] = IF @ = "-" THEN "-" ELSE "R", !.m[5] = @ + 1]
+    [] e.op = "remove" ->      \* whether removing an unknown server is counted is left open (read from the observation)
+         [s EXCEPT !.reg[e.h] = IF @ = "-" THEN "-" ELSE "R",
+                   !.m[5] = IF s.reg[e.h] = "-" /\ e.obs.m[5] = @ THEN @ ELSE @ + 1]
     [] e.op = "check" ->
          LET failing == {e.fail[i] : i \in 1..Len(e.fail)}
              probed(h) == s.reg[h] \in {"H", "O"} IN
